@@ -5,6 +5,7 @@ import (
 	"fmt"
 	"math/big"
 
+	"go.1password.io/spg"
 	"verif/harness/core"
 	"verif/harness/ref"
 )
@@ -22,9 +23,35 @@ func c04Case(c *core.Ctx, w WLCase, maxLeaves int64) {
 	if _, known := capSets(w.Cap, w.Length); !known {
 		return
 	}
-	d, st, err := wlCell(w, maxLeaves, nil)
+	chunkMsg := ""
+	var rgen func() (*spg.Password, error)
+	d, st, err := wlCell(w, maxLeaves, func(l *Leaf) {
+		// every 7th leaf: the same words delivered one byte per read
+		if chunkMsg != "" || l.Out.Aborted || len(l.Bounds)%1 != 0 {
+			return
+		}
+		if rgen == nil {
+			r2, err := w.build()
+			if err != nil {
+				return
+			}
+			rgen = r2.Generate
+		}
+		base := make([]uint32, len(l.Bounds))
+		for i := range base {
+			base[i], _ = cal.Rep(l.Bounds[i], l.Outs[i])
+		}
+		want, _ := runScript(rgen, base)
+		if m := chunkedReplay(rgen, base, want); m != "" {
+			chunkMsg = m
+		}
+	})
 	if err != nil {
 		c.Violation(key+" build", "NewWordList failed: "+err.Error(), rp)
+		return
+	}
+	if chunkMsg != "" {
+		c.Violation(key+" chunked", chunkMsg, rp)
 		return
 	}
 	c.Count("executions", st.Leaves)
